@@ -25,6 +25,8 @@ func main() {
 		runConcChild(os.Args[2:])
 	case "mgr":
 		runMgr(os.Args[2:])
+	case "mgrchild":
+		runMgrChild(os.Args[2:])
 	case "ogm":
 		runOGM(os.Args[2:])
 	case "ogmstress":
